@@ -239,6 +239,25 @@ class Evaluator:
             self.problems.append((e, r.v.why))
         return r
 
+    def fixed_compare(self, e, env):
+        """an order comparison of a quantity that carries a unit with a fixed dimensionless number (machine epsilon,
+        1e-10) whose outcome *decides* something -- a branch, a count, a selection: it changes when the data are
+        rescaled.  (Comparing with 0 is scale-free; a tolerance that is a parameter without a numeric default may
+        carry any unit; a comparison that only feeds the clamp where(x < c, c, x) is a floor, not a decision --
+        those are not judged.)"""
+        for c in ast.walk(e):
+            if not (isinstance(c, ast.Compare) and len(c.ops) == 1 and isinstance(c.ops[0], (ast.Lt, ast.LtE, ast.Gt, ast.GtE))):
+                continue
+            a, b = self.ev(c.left, env), self.ev(c.comparators[0], env)
+            for x, y, yn in ((a, b, c.comparators[0]), (b, a, c.left)):
+                unit = degree_of(x) if isinstance(x, Deg) else None
+                fixed = isinstance(y, Other) and isinstance(y.const, (int, float)) and not isinstance(y.const, bool) and y.const != 0
+                # a tolerance the caller passes (even one with a numeric default) is in whatever unit the caller means
+                if any(isinstance(n_, ast.Name) and n_.id in self.f.all_params for n_ in ast.walk(yn)):
+                    fixed = False
+                if unit and not isinstance(unit, Top) and unit != ZERO and fixed and not any(n_ is c for n_, _ in self.problems):
+                    self.problems.append((c, f"a quantity of unit {fmt(unit)} is compared with the fixed number `{src(yn)[:30]}`"))
+
     def _ev(self, e, env):
         if e is None:
             return Other(None, True)
@@ -696,6 +715,8 @@ class Evaluator:
             return Deg({"S": ONE})
         if self.track_sign and name == "abs" and c.args:
             return Deg(vadd(degree_of(self.ev(c.args[0], env)), {"S": ONE}))
+        if name in ("count_nonzero", "sum", "any", "all", "argmax", "argmin", "nonzero", "py_sum") and c.args and isinstance(c.args[0], ast.Compare):
+            self.fixed_compare(c.args[0], env)  # how many / which entries pass a fixed threshold
         args = [self.ev(a, env) for a in c.args if not isinstance(a, ast.Starred)]
         kws = {k.arg: self.ev(k.value, env) for k in c.keywords if k.arg}
         ct = self.repo.resolve_call(self.f, self.f.module, c)
@@ -1052,6 +1073,8 @@ class Evaluator:
                         env[s.name] = ("func", h)
             elif isinstance(s, ast.If):
                 d = self.decide(s.test, env)
+                if d is None:
+                    self.fixed_compare(s.test, env)
                 saved = self.n_override
                 nfix = _len_test(s.test, env)
                 if nfix is None and any(isinstance(x, ast.Name) for x in ast.walk(s.test)):
